@@ -86,10 +86,10 @@ PROPS["C02"] = {
 
 # ------------------------------------------------------------------ C03
 PROPS["C03"] = {
-    "bounds": "fixed-size leaf signatures on 16 arbitrary bytes (length 0..=16, offset 0..7, both byte orders); strings on 8 arbitrary bytes per offset 0..3; object paths (typed, 7 bytes) and the dynamic Value path for o and s (7-8 bytes)",
-    "outside": "arrays, structs, dicts, variants, depth limits through bytes (do not fit, DESIGN.md 9.5); strings longer than 3 bytes",
+    "bounds": "fixed-size leaf signatures on 16 arbitrary bytes (length 0..=16, offset 0..7, both byte orders); strings on 8 arbitrary bytes per offset 0..3; object paths (typed target, 7 bytes)",
+    "outside": "arrays, structs, dicts, variants, the dynamic Value target (ValueSeed path: times out at 1500 s even for leaf signatures), depth limits through bytes (do not fit, DESIGN.md 9.5); strings longer than 3 bytes",
     "assumptions": [FMT_STUB, CLOSE_STUB, FORGET, RECB],
-    "level_text": "Bounded model checking of the real D-Bus deserializer on fully symbolic input buffers against an independent validating reader written from the specification: acceptance, decoded value and consumed count must agree for every byte string within the bound (zero padding, BOOLEAN 0/1, string length inside the buffer, NUL terminator, interior NUL, UTF-8, object-path grammar also through the dynamic Value path).",
+    "level_text": "Bounded model checking of the real D-Bus deserializer on fully symbolic input buffers against an independent validating reader written from the specification: acceptance, decoded value and consumed count must agree for every byte string within the bound (zero padding, BOOLEAN 0/1, string length inside the buffer, NUL terminator, interior NUL, UTF-8, object-path grammar).",
     "level_note": "bounded to leaf signatures; core::str::from_utf8 and memchr are replaced by byte-loop specifications in the text harnesses (trusted equivalence, checked natively on every run)",
     "groups": [
         dict(ZV, harnesses=
@@ -99,17 +99,15 @@ PROPS["C03"] = {
              [H("c03_dec_%s_p%d" % (t, p), "quick" if (t, p) in (("s", 0), ("s", 3), ("o", 1)) else "thorough", timeout=1500, cost=200, recursion_bounds=REC1, mem_gb=14,
                 bounds="8 symbolic bytes, length 0..=8 symbolic, message offset %d, byte order symbolic, unwind 10; core::str::from_utf8 and memchr replaced by byte-loop specifications" % p,
                 asserts="Ok iff the spec reader accepts (zero padding, length inside buffer, NUL terminator, no interior NUL, UTF-8, path grammar); equal text and consumed count") for (t, p) in [("s", 0), ("s", 1), ("s", 2), ("s", 3), ("o", 0)]] +
-             [H(n, "quick" if n == "c03_dyn_o_p0" else "thorough", timeout=1500, cost=200, recursion_bounds=REC1, mem_gb=14,
-                bounds="Value target (ValueSeed path used for every variant payload), 8 symbolic bytes, length symbolic, byte order symbolic",
-                asserts="Ok iff the spec reader accepts, including object-path grammar; text borrowed from the input") for n in ["c03_dyn_o_p0", "c03_dyn_o_p2", "c03_dyn_s_p0"]] +
+
              []),
     ],
 }
 
 # ------------------------------------------------------------------ C04
 PROPS["C04"] = {
-    "bounds": "GVariant typed decode of leaf signatures and strings on 4..12 arbitrary bytes; D-Bus dynamic (Value) decode of leaf signatures on 8 arbitrary bytes; framing-offset table decode on 0..=6 arbitrary bytes; every C03 harness is also a no-panic proof for the D-Bus typed leaf decoders",
-    "outside": "containers; the option-as-array build; re-encoding of decoded values; stack depth (rests on C07)",
+    "bounds": "GVariant typed decode of leaf signatures and strings on 4..12 arbitrary bytes; framing-offset table decode on 0..=6 arbitrary bytes; every C03 harness is also a no-panic proof for the D-Bus typed leaf decoders",
+    "outside": "containers; the dynamic Value target (does not fit); the option-as-array build; re-encoding of decoded values; stack depth (rests on C07)",
     "assumptions": [FMT_STUB, CLOSE_STUB, FORGET, RECB],
     "level_text": "Kani's own checks (panic, unwrap/expect, unreachable!, arithmetic overflow, out-of-bounds indexing and slicing, failed assert!) on the real decoders for every input within the bound, plus 'never reports more bytes consumed than the input holds'.",
     "level_note": "bounded to leaf signatures and the framing-offset kernel",
@@ -118,10 +116,14 @@ PROPS["C04"] = {
              [H("c04_gv_dec_%s" % t, "quick" if t in "us" else "thorough", timeout=1200, cost=120, recursion_bounds=REC1, mem_gb=16,
                 bounds="GVariant, arbitrary bytes (4..12), length symbolic, offset 0..7, byte order symbolic",
                 asserts="no panic/overflow/out-of-bounds; consumed <= input length") for t in "ybqutds"]),
-        dict(ZV, harnesses=
-             [H("c04_dbus_dyn_%s" % t, "quick" if t in "u" else "thorough", timeout=1200, cost=120, recursion_bounds=REC1, mem_gb=16,
-                bounds="D-Bus, Value target for a leaf signature, 8 arbitrary bytes",
-                asserts="no panic/overflow/out-of-bounds; consumed <= input length") for t in "ubs"]),
+        dict(ZV, harnesses=[
+            H("c03_dec_u", "quick", timeout=900, cost=60, recursion_bounds=REC1,
+              bounds="D-Bus u on 16 arbitrary bytes, length symbolic, offset 0..7, byte order symbolic (harness shared with C03)",
+              asserts="no panic/overflow/out-of-bounds (Kani checks) in the D-Bus typed decoder"),
+            H("c03_dec_s_p0", "quick", timeout=1500, cost=200, recursion_bounds=REC1, mem_gb=14,
+              bounds="D-Bus s on 8 arbitrary bytes, length symbolic, byte order symbolic (harness shared with C03)",
+              asserts="no panic/overflow/out-of-bounds (Kani checks) in the D-Bus string decoder; consumed <= input"),
+        ]),
         dict(ZV_INCRATE_GV, harnesses=[
             H("c04_framing_offsets_decode_total", "quick", timeout=900, cost=150,
               bounds="container of 0..=6 arbitrary bytes", asserts="FramingOffsets::from_encoded_array never panics; offsets <= start of table; count consistent"),
@@ -211,6 +213,9 @@ PROPS["C10"] = {
             [H("c10_%s_len255" % n, "thorough", timeout=2400, cost=400, mem_gb=16,
                bounds="concrete valid content, length symbolic in {255, 256}, unwind 262",
                asserts="accepted iff length <= 255") for n in ["member", "property"]] +
+            [H("c10_%s_deser3" % n, "thorough", timeout=2400, cost=400, mem_gb=16, recursion_bounds=REC1,
+               bounds="well-formed D-Bus STRING with 0..=3 symbolic ASCII text bytes, decoded as the name type (Deserialize route)",
+               asserts="deserialize().is_ok() == spec recogniser") for n in ["member", "unique", "objpath"]] +
             [H("c10_%s_value4" % n, "quick", timeout=900, cost=70, 
                bounds="Value::Str of [u8;4] symbolic ASCII, len 0..=4, unwind 7",
                asserts="TryFrom<Value>.is_ok() == spec recogniser") for n in _names if n != "objpath"],
